@@ -160,6 +160,58 @@ def conc_case(args):
     return {'seed': seed, 'programs': programs, 'shared': shared, 'abort': abort, 'nested': nested, 'results': out}
 
 
+def evicting_block_probe():
+    """a block whose writes EVICT (the cache is at its size limit, file-backed items, every policy) and
+    which then raises: the cache is exactly as it was before the block - every evicted item back with its
+    value readable, nothing of the block left, no leaked or missing file; the same block committing leaves
+    a consistent directory"""
+    import os
+    import shutil
+    import tempfile
+    import diskcache
+    root = os.environ.get('VERIF_SCRATCH') or tempfile.gettempdir()
+    bad = []
+    for policy in ('least-recently-stored', 'least-recently-used', 'least-frequently-used'):
+        for how in ('raise', 'commit', 'nested-raise'):
+            d = tempfile.mkdtemp(prefix='c6ev-', dir=root)
+            try:
+                c = diskcache.Cache(d, disk_min_file_size=8, cull_limit=10, eviction_policy=policy)
+                want = {}
+                for i in range(5):
+                    want['p%d' % i] = b'P' * 40 + bytes([i])
+                    c.set('p%d' % i, want['p%d' % i])
+                c.get('p0')
+                c.reset('size_limit', 1)          # from now on every write evicts
+                try:
+                    with c.transact():
+                        c.set('new', b'N' * 50)
+                        if how == 'nested-raise':
+                            with c.transact():
+                                c.add('new2', b'M' * 50)
+                                raise RuntimeError
+                        c.add('new2', b'M' * 50)
+                        c.incr('n')
+                        if how == 'raise':
+                            raise RuntimeError
+                except RuntimeError:
+                    pass
+                warns = [str(w.message) for w in c.check() if 'empty directory' not in str(w.message)]
+                if how != 'commit':
+                    got = {k: c.get(k) for k in want}
+                    extra = [k for k in ('new', 'new2', 'n') if c.get(k) is not None]
+                    if got != want or extra or len(c) != 5:
+                        bad.append('%s, block that evicts and then raises (%s): afterwards %d items, evicted items restored: %s, items of the block left: %r' % (
+                            policy, how, len(c), got == want, extra))
+                if warns:
+                    bad.append('%s, block that evicts (%s): check() afterwards reports %r' % (policy, how, [w.split(':')[0] for w in warns][:3]))
+                c.close()
+            except Exception as e:  # noqa
+                bad.append('%s, evicting block (%s): probe raised %s: %s' % (policy, how, type(e).__name__, str(e)[:100]))
+            finally:
+                shutil.rmtree(d, ignore_errors=True)
+    return bad
+
+
 def run(tier, seed, rng, known, replay):
     if replay:
         return base.replay_file(replay, 'C06', ('result', 'state', 'trace'), acceptor)
@@ -168,6 +220,8 @@ def run(tier, seed, rng, known, replay):
     r = base.check_histories('C06', hists, ('result', 'state', 'trace'), acceptor=acceptor, known=known)
     dist, distinct = base.op_distribution(hists, r['impl_out'])
     violations = list(r['violations'])
+    for v_ in evicting_block_probe()[:2]:
+        violations.append({'replay': {'property': 'C06', 'kind': 'evicting-block-probe', 'acceptor': v_}, 'found_input': True, 'what': v_})
     # (b) concurrent blocks
     n_cases = 24 if tier == 'quick' else 120
     seeds = [rng.getrandbits(48) for _ in range(n_cases)]
